@@ -649,14 +649,23 @@ func poolCount(p *config.Pool) (int64, int64, int64) {
 				}
 			}
 		}
-		total += sz
+		total = addSaturating(total, sz)
 		if cidr.IP.To4() == nil {
-			ipv6 += sz
+			ipv6 = addSaturating(ipv6, sz)
 		} else {
-			ipv4 += sz
+			ipv4 = addSaturating(ipv4, sz)
 		}
 	}
 	return total, ipv4, ipv6
+}
+
+// addSaturating adds two non-negative counts, saturating at math.MaxInt64
+// instead of wrapping around.
+func addSaturating(a, b int64) int64 {
+	if b > math.MaxInt64-a {
+		return math.MaxInt64
+	}
+	return a + b
 }
 
 // poolFor returns the pool that owns the requested IPs, or "" if none.
